@@ -648,3 +648,64 @@ Qed.
 Lemma o_rewrite_idempotent c : o_wf c = true ->
   match o_dec (o_nx c) (o_ny c) (o_nz c) (o_enc c) with Some c' => o_enc c' = o_enc c | None => False end.
 Proof. intros W. rewrite (o_dec_enc c W). reflexivity. Qed.
+
+(* ---- rows-level facts reused by Proofs/TempHpProofs.v (layered record files) --------------------------- *)
+Section Readable2.
+Variable c : one3d.
+Hypothesis Hwf : o_wf c = true.
+Variables (s0 s1 : ostep) (rest : list ostep).
+Hypothesis Hsteps : o_steps c = s0 :: s1 :: rest.
+Hypothesis Hdiff : stamp_eqb (os_stamp s0) (os_stamp s1) = false.
+Let nzn := Z.to_nat (o_nz c).
+
+Lemma firstn_rows_stamps rn : (1 <= rn <= length (o_rows c))%nat ->
+  exists r0 T, firstn rn (o_rows c) = r0 :: T /\ row_stamp r0 = os_stamp s0 /\
+  first_diff (os_stamp s0) (firstn rn (o_rows c)) 0 = if (rn <=? nzn)%nat then None else Some nzn.
+Proof.
+  intros Hrn. destruct (o_wf_parts c Hwf) as (Hx & Hy & Hz & Hall).
+  pose proof (steps_ok c Hwf) as Hok. rewrite Hsteps in Hok.
+  pose proof (Forall_inv Hok) as Ok0. pose proof (Forall_inv (Forall_inv_tail Hok)) as Ok1.
+  destruct (step_rows_facts c Hwf s0 Ok0) as (L0 & _ & St0 & _).
+  destruct (step_rows_facts c Hwf s1 Ok1) as (L1 & _ & St1 & _).
+  assert (Erows : o_rows c = step_rows s0 ++ step_rows s1 ++ concat (map step_rows rest)).
+  { unfold o_rows. rewrite Hsteps. reflexivity. }
+  fold nzn in L0, L1. assert (Hnz : (1 <= nzn)%nat) by (unfold nzn; lia).
+  destruct (step_rows s0) as [|a0 A0] eqn:EA; [cbn in L0; lia|].
+  destruct (step_rows s1) as [|b1 B1] eqn:EB; [cbn in L1; lia|].
+  exists a0, (firstn (rn - 1) (A0 ++ (b1 :: B1) ++ concat (map step_rows rest))).
+  split; [rewrite Erows; cbn [app]; destruct rn as [|rn']; [lia|]; cbn [firstn]; do 2 f_equal; lia|].
+  split; [apply (Forall_inv St0)|].
+  destruct (rn <=? nzn)%nat eqn:Hle.
+  - apply Nat.leb_le in Hle. apply first_diff_none.
+    rewrite Erows, firstn_app. replace (rn - length (a0 :: A0))%nat with 0%nat by lia.
+    cbn [firstn]. rewrite app_nil_r. apply Forall_firstn, St0.
+  - apply Nat.leb_gt in Hle. destruct (rn - nzn)%nat as [|m] eqn:Em; [lia|].
+    rewrite Erows, firstn_app, firstn_all2 by lia. rewrite L0, Em.
+    change ((b1 :: B1) ++ concat (map step_rows rest)) with (b1 :: (B1 ++ concat (map step_rows rest))).
+    cbn [firstn].
+    rewrite first_diff_app by exact St0. cbn [first_diff]. rewrite (Forall_inv St1).
+    replace (stamp_eqb (os_stamp s1) (os_stamp s0)) with false by (unfold stamp_eqb in *; lia).
+    rewrite L0. reflexivity.
+Qed.
+
+Lemma firstn_rows_groups k : (k <= length (o_steps c))%nat ->
+  group k nzn (firstn (k * nzn) (o_rows c)) = map step_rows (firstn k (o_steps c)).
+Proof.
+  intros Hk.
+  assert (EG : firstn (k * nzn) (o_rows c) = concat (firstn k (map step_rows (o_steps c)))).
+  { unfold o_rows. apply firstn_concat_uniform_gen. apply (step_groups_uniform c Hwf). }
+  rewrite EG.
+  assert (Lk : length (firstn k (map step_rows (o_steps c))) = k) by (rewrite firstn_length, map_length; lia).
+  rewrite <- Lk at 1. rewrite group_concat by (apply Forall_firstn, (step_groups_uniform c Hwf)).
+  symmetry. apply map_firstn.
+Qed.
+
+End Readable2.
+
+Lemma rows_markers c : Forall (fun r => hd 0 r = last r 0) (o_rows c).
+Proof.
+  unfold o_rows. apply Forall_concat. apply Forall_forall. intros g Hg.
+  apply in_map_iff in Hg as (s & <- & _). unfold step_rows. apply Forall_forall. intros r Hr.
+  apply in_map_iff in Hr as (lay & <- & _). unfold frame1. cbn [hd].
+  change (marker ?x :: ?y ++ [marker ?x]) with ((marker x :: y) ++ [marker x]). rewrite last_last. reflexivity.
+Qed.
